@@ -931,6 +931,14 @@ def pigeonhole(n, m, f):
                              forall2_range(0, n, lambda i, j: z3.Implies(i != j, f(i) != f(j)))), n <= m)
 
 
+def reindex_pieces(a):
+    N = a.N
+    return [('phi / psi are mutually inverse bijections of [0,N)', forall_range(0, N, lambda g: z3.And(0 <= a.phi(g), a.phi(g) < N, a.psi(a.phi(g)) == g,
+                                                                                                       0 <= a.psi(g), a.psi(g) < N, a.phi(a.psi(g)) == g), 'g')),
+            ('the second ordering is the first one re-indexed by phi', forall_range(0, N, lambda g: a.d2(g) == a.d1(a.phi(g)), 'g')),
+            ('phi maps the positions of the model in the second ordering onto its positions in the first', forall_range(0, N, lambda g: a.in2(g) == a.in1(a.phi(g)), 'g'))]
+
+
 def counts_agree_hyps(a):
     """a: NS(N, nmin, d1, d2, pi1, pinv1, pi2, pinv2, phi, psi, in1, in2, k1, sel1, rank1, k2, sel2, rank2).
     Two orderings of the same joint sample (d2 = d1 o phi, phi a bijection of [0,N) with inverse psi, mapping the positions of one model's draws in
@@ -941,11 +949,9 @@ def counts_agree_hyps(a):
             ('pi1 sorts the first ordering', sorted_by(N, a.pi1, a.d1)),
             ('pi2 is a permutation of [0,N)', perm_axioms(N, a.pi2, a.pinv2)),
             ('pi2 sorts the second ordering', sorted_by(N, a.pi2, a.d2)),
-            ('phi / psi are mutually inverse bijections of [0,N)', forall_range(0, N, lambda g: z3.And(0 <= a.phi(g), a.phi(g) < N, a.psi(a.phi(g)) == g,
-                                                                                                       0 <= a.psi(g), a.psi(g) < N, a.phi(a.psi(g)) == g), 'g')),
-            ('the second ordering is the first one re-indexed by phi', forall_range(0, N, lambda g: a.d2(g) == a.d1(a.phi(g)), 'g')),
+            ] + reindex_pieces(a)[:2] + [
             ('no tie at the cut', z3.Or(nmin == N, a.d1(a.pi1(nmin - 1)) < a.d1(a.pi1(nmin)))),
-            ('phi maps the positions of the model in the second ordering onto its positions in the first', forall_range(0, N, lambda g: a.in2(g) == a.in1(a.phi(g)), 'g')),
+            reindex_pieces(a)[2],
             ('k1 counts the chosen draws of the model in the first ordering', count_witness(a.k1, a.sel1, a.rank1, nmin, lambda t: a.in1(a.pi1(t)))),
             ('k2 counts the chosen draws of the model in the second ordering', count_witness(a.k2, a.sel2, a.rank2, nmin, lambda t: a.in2(a.pi2(t))))]
 
@@ -1066,30 +1072,13 @@ class PermutedModels(Contract):
         x2 = NS(M=M, ns=[x.ns[j] for j in perm], sims=[x.sims[j] for j in perm], dv=[x.dv[j] for j in perm], objs=[x.objs[j] for j in perm],
                 pri=None if x.pri is None else [x.pri[j] for j in perm])
         s = NS(x=x, x2=x2, sp=cm_spec(x), sp2=cm_spec(x2))
+        vc._s = s
         return s, (list(x.objs), cm_priors_arg(x), list(x2.objs), cm_priors_arg(x2)), {}
 
-    def env(self, vc):
-        return {'compare_models': inline(vc, MS + 'compare_models')}
-
-    def requires(self, s):
-        return cm_pre(s.x)
-
-    def hooks(self, s):
-        M = self.M
-        return {('np.sum', M): cm_final_sum_hook(M, True, 0, 0), ('np.sum', 2 * M + 1): cm_final_sum_hook(M, True, 1, M + 1)}
-
-    def lemmas_at_exit(self, s, result):
-        vc = cur()
+    def _maps(self, s):
         M, perm = self.M, self.perm
         inv = [perm.index(i) for i in range(M)]
-        if len(vc.libcalls.get('np.argsort', [])) != 2 or len(vc.libcalls.get('np.sum', [])) != 2 * M + 2:
-            return []
-        p1, p2 = vc.libcalls['np.argsort']
         sp, sp2 = s.sp, s.sp2
-        N, nmin = sp.N, sp.nmin
-        vc.cut('n_min and the total size do not depend on the order', z3.And(sp2.N == N, sp2.nmin == nmin))
-        vc.cut('call 1 sorts the concatenation in list order', z3.And(p1.n == N, forall_range(0, N, lambda g: p1.of.at(g) == sp.dcat(g), 'g')))
-        vc.cut('call 2 sorts the concatenation in the permuted order', z3.And(p2.n == N, forall_range(0, N, lambda g: p2.of.at(g) == sp2.dcat(g), 'g')))
 
         def phi(g):          # position in concatenation 2 -> position of the same draw in concatenation 1
             r = g - sp2.low[M - 1] + sp.low[perm[M - 1]]
@@ -1102,26 +1091,66 @@ class PermutedModels(Contract):
             for i in reversed(range(M - 1)):
                 r = z3.If(g < sp.low[i + 1], g - sp.low[i] + sp2.low[inv[i]], r)
             return r
+        in1 = [(lambda g, i=i: z3.And(sp.low[i] <= g, g < sp.low[i + 1])) for i in range(M)]
+        in2 = [(lambda g, j=j: z3.And(sp2.low[j] <= g, g < sp2.low[j + 1])) for j in range(M)]
+        return phi, psi, in1, in2
+
+    def env(self, vc):
+        def reindexing():
+            """ghost: facts about the block re-indexing phi / psi; they depend on the sample sizes only and are cut BEFORE the calls"""
+            s = vc._s
+            M, perm = self.M, self.perm
+            sp, sp2 = s.sp, s.sp2
+            phi, psi, in1, in2 = self._maps(s)
+            vc.cut('n_min and the total size do not depend on the order', z3.And(sp2.N == sp.N, sp2.nmin == sp.nmin, 1 <= sp.nmin, sp.nmin <= sp.N))
+            for j in range(M):
+                i = perm[j]
+                vc.cut('block %d of the permuted concatenation is block %d of the original one' % (j, i),
+                       forall_range(sp2.low[j], sp2.low[j + 1], lambda g: z3.And(phi(g) == g - sp2.low[j] + sp.low[i], psi(phi(g)) == g,
+                                                                                 sp2.dcat(g) == s.x.dv[i](g - sp2.low[j]), sp.dcat(phi(g)) == s.x.dv[i](g - sp2.low[j])), 'g'))
+                vc.cut('block %d of the original concatenation is block %d of the permuted one' % (i, j),
+                       forall_range(sp.low[i], sp.low[i + 1], lambda g: z3.And(psi(g) == g - sp.low[i] + sp2.low[j], phi(psi(g)) == g), 'g'))
+            for j in range(M):
+                a = NS(N=sp.N, d1=sp.dcat, d2=sp2.dcat, phi=phi, psi=psi, in1=in1[perm[j]], in2=in2[j])
+                for nm, f in (reindex_pieces(a) if j == 0 else reindex_pieces(a)[2:]):
+                    vc.cut('model %d of the permuted list: %s' % (j, nm), f)
+        return {'compare_models': inline(vc, MS + 'compare_models'), 'reindexing': reindexing}
+
+    def requires(self, s):
+        return cm_pre(s.x)
+
+    def hooks(self, s):
+        M = self.M
+        return {('np.sum', M): cm_final_sum_hook(M, True, 0, 0), ('np.sum', 2 * M + 1): cm_final_sum_hook(M, True, 1, M + 1)}
+
+    def lemmas_at_exit(self, s, result):
+        vc = cur()
+        M, perm = self.M, self.perm
+        if len(vc.libcalls.get('np.argsort', [])) != 2 or len(vc.libcalls.get('np.sum', [])) != 2 * M + 2:
+            return []
+        p1, p2 = vc.libcalls['np.argsort']
+        sp, sp2 = s.sp, s.sp2
+        N, nmin = sp.N, sp.nmin
+        phi, psi, in1, in2 = self._maps(s)
+        vc.cut('call 1 sorts the concatenation in list order', z3.And(p1.n == N, forall_range(0, N, lambda g: p1.of.at(g) == sp.dcat(g), 'g')))
+        vc.cut('call 2 sorts the concatenation in the permuted order', z3.And(p2.n == N, forall_range(0, N, lambda g: p2.of.at(g) == sp2.dcat(g), 'g')))
         s.H = z3.Or(nmin == N, sp.dcat(p1.pi(nmin - 1)) < sp.dcat(p1.pi(nmin)))
-        s.keq = []
+        early = {nm for nm, _ in reindex_pieces(NS(N=N, d1=sp.dcat, d2=sp2.dcat, phi=phi, psi=psi, in1=in1[0], in2=in2[0]))}
         for j in range(M):
             i = perm[j]
             k1, sel1, rank1, _ = vc.libcalls['np.sum'][i]['mask'].select()
             k2, sel2, rank2, _ = vc.libcalls['np.sum'][M + 1 + j]['mask'].select()
             a = NS(N=N, nmin=nmin, d1=sp.dcat, d2=sp2.dcat, pi1=p1.pi, pinv1=p1.pinv, pi2=p2.pi, pinv2=p2.pinv, phi=phi, psi=psi,
-                   in1=(lambda g, i=i: z3.And(sp.low[i] <= g, g < sp.low[i + 1])), in2=(lambda g, j=j: z3.And(sp2.low[j] <= g, g < sp2.low[j + 1])),
-                   k1=k1, sel1=sel1, rank1=rank1, k2=k2, sel2=sel2, rank2=rank2)
-            pieces = counts_agree_hyps(a)
-            for nm, f in pieces:
-                if nm == 'no tie at the cut':
-                    continue
-                if j > 0 and not (nm.startswith('k1 ') or nm.startswith('k2 ') or nm.startswith('phi maps')):
+                   in1=in1[i], in2=in2[j], k1=k1, sel1=sel1, rank1=rank1, k2=k2, sel2=sel2, rank2=rank2)
+            for nm, f in counts_agree_hyps(a):
+                if nm == 'no tie at the cut' or nm in early:
+                    continue                       # the re-indexing facts were cut by reindexing() before the calls
+                if j > 0 and not (nm.startswith('k1 ') or nm.startswith('k2 ')):
                     continue                       # the order facts were cut for j = 0 (same formulas)
                 vc.cut('model %d of the permuted list: %s' % (j, nm), f)
             hyp, goal = stmt_counts_agree(a)
             vc.assume(z3.Implies(hyp, goal))         # proved by LemmaCountsAgree
             vc.cut('model %d of the permuted list is counted as model %d of the original list' % (j, i), z3.Implies(s.H, k1 == k2))
-            s.keq.append((k1, k2))
         return []
 
     def ensures(self, s, result):
@@ -1137,7 +1166,8 @@ class PermutedModels(Contract):
 
 CONTRACTS = [InputVariables(1), InputVariables(3), GetFinite(1), GetFinite(2), Pairs(2), Fit(1, True), Fit(2, False),
              Adjust1(), Adjust(2), AdjustPosterior(1, 'linear'), AdjustPosterior(2, 'instance'),
-             LemmaSumExt(), LemmaSignCancels(), LemmaCountsAgree(), PermutedModels((1, 0), True),
+             LemmaSumExt(), LemmaSignCancels(), LemmaCountsAgree(), PermutedModels((1, 0), True), PermutedModels((1, 0), False),
+             PermutedModels((1, 0, 2), True), PermutedModels((0, 2, 1), True), PermutedModels((2, 0, 1), False),
              CompareModels(2, False), CompareModels(2, True), CompareModels(3, False), CompareModels(3, True), CompareModels(3, True, guarded=True)]
 TRUSTED_BASE = ['sklearn.linear_model.LinearRegression (assumed library, recording stub): fit(X, y) returns the object itself and sets coef_ to the '
                 'least-squares slope of y on X with an intercept, one entry per column (sanity-tested against numpy.linalg.lstsq each run, '
